@@ -273,6 +273,29 @@ func runC16(c *runCtx) {
 				res.fail("held-scan-result-modified", "a scan result kept by the caller changed when the same tree was scanned again (at another threshold)", wit, map[string]any{"threshold": sv, "first": heldSnap[sv], "now": now})
 			}
 		}
+		// one scanner used again and again, its documented MinSeverity field set anew before each scan (in both
+		// directions): each scan answers as a fresh scanner with that threshold does
+		{
+			reused := security.NewScanner()
+			for _, sv := range []security.Severity{security.SeverityLow, security.SeverityCritical, security.SeverityMedium, security.SeverityHigh, security.SeverityLow, security.SeverityHigh} {
+				reused.MinSeverity = sv
+				if now := snapOf(reused.Scan(tree)); now != heldSnap[sv] {
+					res.fail("scanner-reuse:threshold-reassigned", "a scanner whose MinSeverity was set anew answers differently from a fresh scanner with that threshold", wit,
+						map[string]any{"threshold_now": sv, "reused": now, "fresh": heldSnap[sv]})
+					break
+				}
+			}
+			reusedText := security.NewScanner()
+			for _, sv := range []security.Severity{security.SeverityCritical, security.SeverityLow, security.SeverityHigh} {
+				reusedText.MinSeverity = sv
+				fresh, _ := security.NewScannerWithSeverity(sv)
+				if a, b := snapOf(reusedText.ScanSQL(sql)), snapOf(fresh.ScanSQL(sql)); a != b {
+					res.fail("scanner-reuse:threshold-reassigned", "a scanner whose MinSeverity was set anew answers ScanSQL differently from a fresh scanner with that threshold", wit,
+						map[string]any{"threshold_now": sv, "reused": a, "fresh": b})
+					break
+				}
+			}
+		}
 		for _, sv := range sevs {
 			r := held[sv]
 			var wantF []string
